@@ -254,6 +254,15 @@ def file_safe(originals):
 
 
 def roundtrip_check(root, section, las, originals, ci):
+    """I6 for the items as they are, and once more with every value emptied (an empty value on an item that
+    has a unit is normalised by write(): the item written must still be the original one)."""
+    bad = _roundtrip_check(root, section, las, originals, ci, False)
+    if not bad and not (any(isinstance(i, CurveItem) for i in section) or root in ("lascurves", "read-curves")):
+        bad = _roundtrip_check(root, section, las, originals, ci, True)
+    return bad
+
+
+def _roundtrip_check(root, section, las, originals, ci, empty_values):
     """I6: write() emits the originals in order; read() reproduces originals and session names."""
     case = {"read-preserve": "preserve", "read-upper": "upper", "read-lower": "lower", "read-curves": "upper",
             "empty": "preserve", "empty-ci": "upper", "lascurves": "preserve"}[root]
@@ -270,7 +279,7 @@ def roundtrip_check(root, section, las, originals, ci):
     else:
         f.append_curve("DEPT", np.array([1.0, 2.0]))
         for it in section:
-            f.params.append(HeaderItem(it.original_mnemonic, it.unit, it.value, it.descr))
+            f.params.append(HeaderItem(it.original_mnemonic, it.unit, "" if empty_values else it.value, it.descr))
         target = f.params
     # the clone was built by appends only; its session names are what lasio assigns on reading order
     s = io.StringIO()
